@@ -9,7 +9,7 @@ from __future__ import annotations
 import numpy as np
 
 from .. import boson, circmon, emumon
-from ..gen import Builder
+from ..gen import Builder, equivalent_variant
 from .c03 import random_state
 from .common import drain_into, merge_stats, setup
 
@@ -56,6 +56,14 @@ def run(ctx):
         except Exception as e:  # noqa: BLE001
             ctx.count("construction_raised:" + type(e).__name__)
             circmon.drain()
+            continue
+        circmon.drain()
+        try:
+            c, variant = equivalent_variant(c, rng)
+            log.append(["presented_as", variant])
+            ctx.bucket("circuit_presented_as:" + variant)
+        except Exception as e:  # noqa: BLE001
+            ctx.count("variant_raised:" + type(e).__name__)
             continue
         circmon.drain()
         u = c.U_full
